@@ -26,6 +26,7 @@ RULE = ('case = one accepted generated comment-dense document (either attributio
         'zero-width tokens must be unchanged. At the end of every case each model of the document has all its public attributes read once '
         '(full sweep), with the same bracket. Non-trivial = the call ran attribution / copy / iteration code or moved a zero-width '
         'token; distinct = hash(text, call-log prefix).')
+RULE += (' Also (rounds 10-12): after every call len(store) equals the number of tokens the store iterates; a quarter of the cases re-parse under a block size that leaves an under-full block (holding a comment where possible) and claim everything by hand.')
 ASSUMPTIONS = ['zero-width tokens may be permuted by claim calls (that is their mechanism); only their multiset is compared',
                'a getter that raises (e.g. the value of 1/0) is recorded, not judged: the property is about the document, not the result']
 
